@@ -9,15 +9,9 @@ COMMON_NOTE = ("Trusted: Lean 4.33 kernel with axioms propext/Classical.choice/Q
                "(sampling, not proof) and the verif-hooks accessors; Hcl/Spec as the reading of the property. ")
 
 CLAIMS = {
- "C01": ("Lean theorems C01_settlement / C01_stable / settled_unique / C01_order_independent: for every state, every action "
-         "list that is a valid schedule (ValidFrom) ends the cycle with every driven wire equal to its definition evaluated "
-         "in the final valuation (start-of-cycle registers/memory), and any two valid schedules of the same action set give "
-         "identical values. Schedule validity of what the real scheduler emits is checked on every produced schedule "
-         "(schedValid in the driver, several hash seeds per program) and the real values of every cycle are compared with "
-         "the scheduling-free fixpoint specification Spec.cycle.",
-         "The step from Program::new's output to ValidFrom is established per produced schedule by the decidable checker, "
-         "not yet by a theorem about the Program.new model (see DESIGN.md C01).",
-         "Lean 4 proof (settlement + uniqueness by induction over the schedule) + schedule validation + differential oracle"),
+ "C01": ('Lean theorem C01_accepted, with no hypothesis about the schedule: for every accepted statement list (constants fit, widths <= 128), every flag set and every iteration order of the hash tables, the action list is pre ++ fin with fin the state-changing actions, and after any cycle that completes every driven wire equals its definition evaluated in the final valuation (start-of-cycle registers and memory), undriven wires keep their values, and that valuation is the only one with this property agreeing on register outputs and constants (uniqueness = order independence). It rests on Program_new_valid (the value-writing actions of an accepted program form a ValidFrom schedule: pure, outputs pairwise distinct, no read of a wire written by the action itself or a later one), proved from the stage invariants of Program::new and the sorter theorem on the built graph; C01_settlement / C01_stable / settled_unique / C01_order_independent are the schedule-level lemmas. The real values of every cycle are compared with the scheduling-free fixpoint specification Spec.cycle, several hash seeds per program.',
+         'StmtsWF is what lexer and grammar guarantee (tied by correspondence). That two iteration orders give the same set of actions and the same constants (so that the unique settlement is literally the same valuation) is proved at graph level (C12_*) and sampled at program level.',
+         'Lean 4 proof (settlement + uniqueness by induction over the schedule) + schedule validation + differential oracle'),
  "C02": ("Lean theorem ev_correct / C02_eval_eq_denote (all flags, widths, values, nestings): an expression the checker accepts "
          "at width w evaluates (after the width fix-up) to exactly Spec.dv at exactly Spec.sw, or reports division by zero "
          "exactly when the specification evaluates a zero divisor; C02_assign: the stored value is that value truncated to "
@@ -25,20 +19,12 @@ CLAIMS = {
          "mask/shift/wrapping arithmetic from plain modular arithmetic.",
          "Constants are assumed to fit their width (wfEx), which the lexer establishes and the correspondence stream exercises.",
          "Lean 4 proof by mutual structural induction + differential oracle on type-directed expressions"),
- "C03": ("Lean theorems C03_bank_edge / C03_edge about the model of process_register_banks: for every value table and every list "
-         "of banks whose outputs are not among the wires any other bank looks at (pairwise distinct prefix letters), after the "
-         "clock edge every register of a bank holds its default if the bank's bubble signal is non-zero, else its old value if "
-         "stall is non-zero, else the end-of-cycle value of its input; no other wire changes. That outputs do not change "
-         "within a cycle is C01_stable. Induction over the bank list gives all stall/bubble histories; the S-PROG banks "
-         "profile (stall/bubble toggling per bank from a counter) ties it to the code.",
-         "BankWF (presence of the bank's wires, distinct output names) is established by Program.new and checked through the streams.",
-         "Lean 4 proof (fold invariants over defaults/signals, frame lemma across banks) + differential oracle"),
- "C04": ("Lean theorems C04_read (read port = start-of-cycle register), C04_write_port, C04_write_E_then_M (result of the two "
-         "write ports in schedule order equals Spec.regWrite applied for E then M), C04_M_wins, C04_reg15 and "
-         "C04_reg15_invariant (no action ever changes register 15; all registers start at 0). E-before-M and "
-         "reads-before-writes in the real schedule are validated on every produced schedule (schedValid).",
-         "The order of the write ports in y86_fixed_functions() is tied by the per-schedule validation, not yet by the translator.",
-         "Lean 4 proof + schedule validation + differential oracle with collision coverage"),
+ "C03": ("Lean theorem C03_accepted, with no hypothesis beyond acceptance: for every accepted statement list, every flag set and iteration order, in every state where the bank signals are present (every state a run reaches, by C07_accepted), the clock edge sets every register of a bank to its default if the bank's bubble signal is non-zero, else keeps it if stall is non-zero, else loads the end-of-cycle value of its input; no other wire changes. The side conditions of the bank lemmas C03_bank_edge / C03_edge (outputs of a bank distinct, inputs never outputs, control signals never register signals, names of different banks disjoint, every default belongs to an output) are derived from the register-bank stage of Program::new (step3_facts: all signal names distinct, shapes of names). That outputs do not change within a cycle is C01_accepted (stability).",
+         'Stall/bubble histories come from induction over cycles (C07_soundness keeps the presence hypothesis); the S-PROG banks profile ties the model to the code.',
+         'Lean 4 proof (fold invariants over defaults/signals, frame lemma across banks) + differential oracle'),
+ "C04": ('Lean theorems C04_accepted_order (for every accepted statement list, flag set and iteration order: all value-writing actions, the two register read ports among them, come before all state-changing actions, and those are a sub-sequence of Stat, memory write, register write E, register write M in this order), C04_read (read port = start-of-cycle register), C04_write_port, C04_write_E_then_M (the two write ports in that order equal Spec.regWrite applied for E then M), C04_M_wins, C04_reg15 and C04_reg15_invariant (no action ever changes register 15; all registers start at 0).',
+         "The composition 'cycle of an accepted program = reads of the old file, then regWrite E, then regWrite M' is assembled per program by the differential oracle (collision coverage), the pieces are theorems.",
+         'Lean 4 proof + schedule validation + differential oracle with collision coverage'),
  "C05": ("Lean theorems C05_read_spec / C05_write_spec (the BTreeMap model's read and write are the specified little-endian "
          "rdLE/wrLE over addresses modulo 2^64), wrLE_hit / wrLE_other / C05_read_after_write / C05_last_write_wins / "
          "C05_untouched (every byte is the most recent earlier write to its address, else the image; wrap-around included), "
